@@ -55,7 +55,7 @@ Proof.
 Qed.
 
 (* ---- the merge theorem on event lists ------------------------------------------------------------------------------ *)
-Lemma ppar_merge_l : forall K inev ls fuel, get "stretch" inev = None -> lists_ok K ls ->
+Lemma ppar_merge_l : forall K inev ls fuel, lists_ok K ls ->
   (mupto (List.length ls) ls <= fuel)%nat ->
   let outs := par_run K inev fuel (par_init (List.length ls)) (F 0) ls in
   (forall c, (c < List.length ls)%nat -> Forall2 own (of_child c outs) (ctimeline K 0 (nth c ls []))) /\
@@ -64,7 +64,7 @@ Lemma ppar_merge_l : forall K inev ls fuel, get "stretch" inev = None -> lists_o
   (forall k o, nth_error outs k = Some o -> toQ (po_time o) == qsum (firstn k (map (out_delta K) outs))) /\
   (ls <> [] -> is_max (qsum (map (out_delta K) outs)) (map (total K) ls)).
 Proof.
-  intros K inev ls fuel Hst Hok Hfuel outs.
+  intros K inev ls fuel Hok Hfuel outs.
   pose proof (par_init_pinv K ls Hok) as Hinv.
   destruct (par_init_facts (List.length ls) (List.length ls) (le_n _)) as [Hq [_ [Hf [Ht Hme]]]].
   assert (Hm : (meas (fst (par_init (List.length ls))) ls <= fuel)%nat) by (rewrite Hme; exact Hfuel).
@@ -72,11 +72,11 @@ Proof.
   - intros c Hc. pose proof (par_child_timeline K inev fuel _ _ ls c Hinv Hm) as H. rewrite (Ht c Hc) in H. exact H.
   - apply (par_keys_increase K inev fuel _ _ ls Hinv).
   - apply (par_keys_increase K inev fuel _ _ ls Hinv).
-  - intros k o H. rewrite (par_time_prefix K inev Hst fuel _ _ ls Hinv k o H). unfold outs. cbn [toQ]. ring.
+  - intros k o H. rewrite (par_time_prefix K inev fuel _ _ ls Hinv k o H). unfold outs. cbn [toQ]. ring.
   - intros Hne.
     assert (Hq0 : fst (par_init (List.length ls)) <> []).
     { destruct ls as [|l0 r]; [contradiction|]. intros E. pose proof (Ht 0%nat ltac:(cbn; lia)) as H0. rewrite E in H0. discriminate. }
-    pose proof (par_total K inev Hst fuel _ _ ls Hinv Hm Hq0) as H.
+    pose proof (par_total K inev fuel _ _ ls Hinv Hm Hq0) as H.
     eapply is_max_transfer; [exact H|unfold outs; cbn [toQ]; ring| |].
     + intros b Hb. apply in_map_iff in Hb. destruct Hb as [l [El Hl]].
       destruct (In_nth _ _ [] Hl) as [i [Hi Ei]].
@@ -92,18 +92,17 @@ Proof.
 Qed.
 
 (* ---- player o Ppar ------------------------------------------------------------------------------------------------------ *)
-Lemma par_out_numeric : forall c K inev fuel q now ls, get "stretch" inev = None -> pinv K q now ls ->
+Lemma par_out_numeric : forall c K inev fuel q now ls, pinv K q now ls ->
   Forall (numeric_delta c K) (map as_event (map po_ev (par_run K inev fuel q now ls))).
 Proof.
-  intros c K inev fuel. induction fuel as [|f IH]; intros q now ls Hst Hinv; [constructor|].
+  intros c K inev fuel. induction fuel as [|f IH]; intros q now ls Hinv; [constructor|].
   destruct q as [[|x r] n]; [constructor|].
   destruct (pinv_now _ _ _ _ Hinv) as [a [Ea Eh]]. cbn [fst] in Eh. subst now a.
   destruct (par_step K inev f x r n (prio x) ls Hinv)
     as [i Ei Hnth Er Hrun | i y r' Ei Hi Hnth Er Hrun Hinv' | i e0 li y r' Ei Hi Hnth He0 Eq2 Hrun Hinv'];
     rewrite Hrun; [constructor| |].
   - cbn [map po_ev]. constructor; [|apply IH; assumption].
-    unfold numeric_delta. rewrite delta_as_event. unfold silent. rewrite Hst.
-    unfold ev_call. rewrite get_put_neq by reflexivity. rewrite get_put_same. cbn. reflexivity.
+    unfold numeric_delta. rewrite delta_as_event. unfold par_rest. rewrite ev_call_put_same. cbn. reflexivity.
   - cbn [map po_ev]. constructor; [|apply IH; assumption].
     unfold numeric_delta. rewrite delta_as_event. rewrite ev_call_put_same. cbn. reflexivity.
 Qed.
@@ -139,13 +138,13 @@ Definition logged (now : Q) (te : Q * event) (o : pout) : Prop :=
   fst te == now + toQ (po_time o) /\ snd te = as_event (po_ev o).
 
 Lemma player_ppar_log : forall c K lib dep inev cs ls fuel mc now,
-  (0 < dep)%nat -> get "stretch" inev = None -> lists_ok K ls -> Forall2 (denotes c K lib dep inev) cs ls ->
+  fix_ppar_rest c = true -> (0 < dep)%nat -> lists_ok K ls -> Forall2 (denotes c K lib dep inev) cs ls ->
   let outs := par_run K inev fuel (par_init (List.length ls)) (F 0) ls in
   stream_run c K lib fuel (S dep) (SPar false spec_init (F 0) cs) inev mc = map po_ev outs /\
   Forall2 (logged now) (evs (player c K lib fuel (S dep) (SPar false spec_init (F 0) cs) inev mc now)) outs.
 Proof.
-  intros c K lib dep inev cs ls fuel mc now Hd Hst Hok HF outs.
-  pose proof (ppar_stream_is_par_run_init c K lib dep inev Hd fuel cs ls mc HF) as Es. fold outs in Es.
+  intros c K lib dep inev cs ls fuel mc now Hr Hd Hok HF outs.
+  pose proof (ppar_stream_is_par_run_init c K lib dep inev Hr Hd fuel cs ls mc HF) as Es. fold outs in Es.
   split; [exact Es|].
   pose proof (par_init_pinv K ls Hok) as Hinv.
   assert (El : evs (player c K lib fuel (S dep) (SPar false spec_init (F 0) cs) inev mc now)
@@ -154,7 +153,7 @@ Proof.
   rewrite El. apply Forall2_nth.
   - rewrite timeline_length, !map_length. reflexivity.
   - intros k [t e] o H1 H2. destruct (timeline_nth _ _ _ _ _ _ H1) as [H3 H4]. unfold logged. cbn [fst snd]. split.
-    + rewrite H4. rewrite (par_time_prefix K inev Hst fuel _ _ ls Hinv k o H2). cbn [toQ].
+    + rewrite H4. rewrite (par_time_prefix K inev fuel _ _ ls Hinv k o H2). cbn [toQ].
       assert (M : map (delta_q K) (map as_event (map po_ev outs)) = map (out_delta K) outs).
       { rewrite !map_map. apply map_ext. intros a. apply delta_q_as_event. }
       rewrite M. fold outs. ring.
@@ -166,16 +165,16 @@ Definition played_own (now : Q) (te : Q * event) (ce : Q * event) : Prop :=
   fst te == now + fst ce /\ exists dv, snd te = as_event (put "delta" dv (as_event (snd ce))).
 
 Lemma player_ppar_times_l : forall c K lib dep inev cs ls fuel mc now,
-  (0 < dep)%nat -> get "stretch" inev = None -> lists_ok K ls -> Forall2 (denotes c K lib dep inev) cs ls ->
+  fix_ppar_rest c = true -> (0 < dep)%nat -> lists_ok K ls -> Forall2 (denotes c K lib dep inev) cs ls ->
   (mupto (List.length ls) ls <= fuel)%nat ->
   let outs := par_run K inev fuel (par_init (List.length ls)) (F 0) ls in
   let log := evs (player c K lib fuel (S dep) (SPar false spec_init (F 0) cs) inev mc now) in
   forall ch, (ch < List.length ls)%nat ->
   Forall2 (played_own now) (sel ch log outs) (ctimeline K 0 (nth ch ls [])).
 Proof.
-  intros c K lib dep inev cs ls fuel mc now Hd Hst Hok HF Hfuel outs log ch Hch.
-  destruct (player_ppar_log c K lib dep inev cs ls fuel mc now Hd Hst Hok HF) as [_ HL]. fold outs in HL. fold log in HL.
-  destruct (ppar_merge_l K inev ls fuel Hst Hok Hfuel) as [T1 _]. fold outs in T1.
+  intros c K lib dep inev cs ls fuel mc now Hr Hd Hok HF Hfuel outs log ch Hch.
+  destruct (player_ppar_log c K lib dep inev cs ls fuel mc now Hr Hd Hok HF) as [_ HL]. fold outs in HL. fold log in HL.
+  destruct (ppar_merge_l K inev ls fuel Hok Hfuel) as [T1 _]. fold outs in T1.
   eapply Forall2_comp; [|apply sel_Forall2; exact HL|exact (T1 ch Hch)].
   intros te o ce [A1 A2] [B1 [dv B2]]. split.
   - rewrite A1, B1. reflexivity.
@@ -184,7 +183,7 @@ Qed.
 
 (* ---- the property, on the stream of Ppar ------------------------------------------------------------------------------ *)
 Lemma ppar_preserves_child_timelines_l : forall c K lib dep inev cs ls fuel mc,
-  (0 < dep)%nat -> get "stretch" inev = None -> lists_ok K ls -> Forall2 (denotes c K lib dep inev) cs ls ->
+  fix_ppar_rest c = true -> (0 < dep)%nat -> lists_ok K ls -> Forall2 (denotes c K lib dep inev) cs ls ->
   (mupto (List.length ls) ls <= fuel)%nat ->
   let out := stream_run c K lib fuel (S dep) (SPar false spec_init (F 0) cs) inev mc in
   exists outs,
@@ -195,10 +194,10 @@ Lemma ppar_preserves_child_timelines_l : forall c K lib dep inev cs ls fuel mc,
     StronglySorted key_lt outs /\
     (ls <> [] -> is_max (qsum (map (delta_q K) out)) (map (total K) ls)).
 Proof.
-  intros c K lib dep inev cs ls fuel mc Hd Hst Hok HF Hfuel out.
+  intros c K lib dep inev cs ls fuel mc Hr Hd Hok HF Hfuel out.
   exists (par_run K inev fuel (par_init (List.length ls)) (F 0) ls).
-  pose proof (ppar_stream_is_par_run_init c K lib dep inev Hd fuel cs ls mc HF) as Es. fold out in Es.
-  destruct (ppar_merge_l K inev ls fuel Hst Hok Hfuel) as [T1 [T2 [T2' [Tp T3]]]].
+  pose proof (ppar_stream_is_par_run_init c K lib dep inev Hr Hd fuel cs ls mc HF) as Es. fold out in Es.
+  destruct (ppar_merge_l K inev ls fuel Hok Hfuel) as [T1 [T2 [T2' [Tp T3]]]].
   assert (M : map (delta_q K) out = map (out_delta K) (par_run K inev fuel (par_init (List.length ls)) (F 0) ls)).
   { rewrite Es, map_map. reflexivity. }
   split; [exact Es|]. split; [exact T1|]. split; [|split; [exact T2|]].
